@@ -1,61 +1,9 @@
-# Per-property configuration of the check driver.
-# engines: (harness engine name, cases at quick tier, cases at thorough tier)
+# Per-property configuration of the check driver: one file per property under lib/props.d/.
+import glob, importlib.util, os
 
-COMMON_TRUSTED = [
-    "Coq 8.16.1 kernel via coqc (full .vo build through coq_makefile; vm_compute used for finite sweeps/examples; native_compute not used)",
-    "go2v translator (Go constants and loop-free decision functions -> Gallina; hints listed in each generated file)",
-    "extraction with ExtrOcamlBasic only (Extract Inductive bool/option/unit/list/prod/sumbool/sumor, Extract Inlined Constant andb/orb/negb/fst/snd); numbers stay positive/N/Z; OCaml 4.13.1; runner/driver.ml",
-    "Go harness + build-time overlay wrappers (call the real code and print what it returns); python driver (diff, evidence)",
-]
-
-PROPS = {
-    "C17": dict(
-        engines=[("retry", 400, 6000)],
-        rule="canretry: the full table 7 policies x 256 codes x {system, net.Error, other}; retry: random scripts "
-             "(policy, MaxAttempts in {0,1,2,3,5,7,10}, outcome list with position of first success, peers marked per attempt, "
-             "optional per-attempt timeout) run through the real Channel.RunWithRetry; retry-avoid: real sub-channel peer lists of "
-             "1..6 peers. Non-trivial = more than one attempt (retry), more than one peer (avoid), every table point; distinct by input.",
-        trusted_base=COMMON_TRUSTED + [
-            "modelled by hand (tied by correspondence): RunWithRetry loop, getRetryOptions, AddSelectedPeer, getHost; "
-            "regenerated from source each run: CanRetry, getErrCode, GetSystemErrorCode, RetryOn/ErrCode constants, defaultRetryOptions.MaxAttempts",
-            "abstraction: a Go error is seen as (nil?, SystemError? with code, net.Error?)",
-        ],
-        assumptions=["sub-channel avoidance clause is decided by C15's theorems on PeerList.Get; here it is exercised by the oracle only",
-                     "MaxAttempts < 0 (loop runs zero times, returns nil) is outside the statement's domain"],
-    ),
-    "C06": dict(
-        engines=[("msg", 250, 3000), ("msgwire", 40, 600)],
-        rule="msg: boundary-heavy message values (string lengths 0/1/254/255/256/65535/65536, ttl {0,1,2^31,2^32-1}, span patterns, "
-             "0..255 headers, small payload capacities) encoded by the real Frame.write+WriteOut vs the model (msg_enc); the valid encoding, "
-             "junk-extended, random strict prefixes and byte-mutated payloads decoded by the real message.read vs the model (msg_dec); "
-             "frames ++ junk, truncated frames and mutated size/reserved fields through the real Frame.ReadIn (frame_in). "
-             "msgwire: a real client channel (frame pool with stale header bytes) against a raw TCP peer that parses/produces frames with an "
-             "encoder written from the protocol document. Every case counts as non-trivial; distinct by input.",
-        trusted_base=COMMON_TRUSTED + [
-            "modelled by hand (tied by correspondence): typed.ReadBuffer/WriteBuffer, all message read/write methods, Span codec, "
-            "FrameHeader read/write, Frame.write/WriteOut/ReadBody/ReadIn; regenerated from source: SetPayloadSize, PayloadSize, all message type "
-            "codes, MaxFramePayloadSize, FrameHeaderSize",
-            "Spec/Protocol.v: the independent encoder, written from the protocol document with literals",
-        ],
-        assumptions=["Go map iteration order is a universally quantified list order in the theorems; the harness recovers the emitted order from the bytes",
-                     "header counts above 255/65535 (byte(len)/uint16(len) casts) are outside protocol limits and carry the explicit hypothesis zlen <= 255/65535"],
-    ),
-    "C18": dict(
-        engines=[("codecs", 120, 1500), ("hdrpath", 120, 2000)],
-        rule="codecs: thrift header maps (0..300 entries, boundary lengths 65535/65536) through the real WriteHeaders/ReadHeaders and the "
-             "arg2 KeyValIterator; HTTP requests/responses (methods, URLs up to 16384 bytes, status codes, multi-valued and non-canonical "
-             "header keys, over-size buffers) through the real WriteRequest/ReadRequest/ResponseWriter/ReadResponse on in-memory arg streams; "
-             "uvarints; each valid encoding also as hostile variants (every kind of truncation, boundary bytes, junk, random, varints >= 2^63), "
-             "every call under recover() so a panic is an observation. hdrpath: real thrift and JSON client/server pairs, headers attached to "
-             "the context vs. headers seen by the handler and response headers seen by the caller. All cases distinct by input.",
-        trusted_base=COMMON_TRUSTED + [
-            "modelled by hand (tied by correspondence): thrift WriteHeaders/readHeaders, arg2 KeyValIterator, http writeHeaders/readHeaders/"
-            "readVarintString/WriteRequest/ReadRequest/ResponseWriter/ReadResponse byte layer, typed.ReadBuffer.ReadBytes guard, "
-            "encoding/binary uvarint (re-modelled from its source)",
-            "library oracles, not modelled: encoding/json, thrift struct (de)serialisation, net/http request/URL construction (cases the "
-            "library rejects are skipped); the thrift/JSON header path through client/server is covered by the hdrpath oracle only",
-        ],
-        assumptions=["WriteRequest ignores the write buffer's error for arg2 above 10000 bytes (sender reports success, receiver fails): outside "
-                     "the statement's 'within their size limits'; noted in DESIGN.md"],
-    ),
-}
+PROPS = {}
+for _f in sorted(glob.glob(os.path.join(os.path.dirname(os.path.abspath(__file__)), "props.d", "C*.py"))):
+    _spec = importlib.util.spec_from_file_location("props_" + os.path.basename(_f)[:-3], _f)
+    _m = importlib.util.module_from_spec(_spec)
+    _spec.loader.exec_module(_m)
+    PROPS[os.path.basename(_f)[:-3]] = _m.CFG
